@@ -424,8 +424,16 @@ pub fn check(ctx: &Ctx) {
         for h in hashes {
             for text in [false, true] {
                 for enc in [Enc::None, Enc::V2(7, 2, 0)] {
-                    for n in [0usize, 1, 100, 600] {
+                  // known-length and streamed sources: the one-pass packets of the different key
+                  // versions / hashes (15 .. 72 octets) push the literal header to different
+                  // offsets within the first 64-octet AEAD chunks
+                  for source in [1u8, 0] {
+                    for n in [0usize, 1, 100, 186, 600, 1000] {
+                        if source == 0 && matches!(n, 1 | 600) {
+                            continue;
+                        }
                         let mut cfg = base(enc);
+                        cfg.source = source;
                         cfg.signers = vec![(key, h)];
                         cfg.text = text;
                         sweep.push(Case {
@@ -434,6 +442,26 @@ pub fn check(ctx: &Ctx) {
                             extra_pulls: n == 100,
                             v1_streaming: false,
                         });
+                    }
+                  }
+                }
+            }
+        }
+    }
+    // pairs of signers of every version mix (the one-pass packets add up to other offsets)
+    for (a, b) in [(KeyKind::Ed25519V6, KeyKind::Ed25519V6), (KeyKind::Ed25519V6, KeyKind::EcdsaP256V6), (KeyKind::Ed25519V4, KeyKind::Ed25519V6), (KeyKind::Ed25519V6, KeyKind::Ed25519V4), (KeyKind::EcdsaP256V4, KeyKind::Ed25519V4)] {
+        for (ha, hb) in [(0u8, 0u8), (1, 0), (0, 1), (2, 0)] {
+            for source in [0u8, 1] {
+                for enc in [Enc::V2(7, 2, 0), Enc::V2(7, 2, 1)] {
+                    for n in [0usize, 186, 300, 1000] {
+                        if a == b && source == 1 {
+                            continue;
+                        }
+                        let mut cfg = base(enc);
+                        cfg.source = source;
+                        // msg::build takes cert(kind, 1) for every signer: the same kind twice is the same key twice
+                        cfg.signers = vec![(a, ha), (b, hb)];
+                        sweep.push(Case { cfg, n, extra_pulls: false, v1_streaming: false });
                     }
                 }
             }
